@@ -15,6 +15,15 @@ class _Return(Exception):
         self.v = v
 
 
+class _Break(Exception):
+    def __init__(self, v=None):
+        self.v = v
+
+
+class _Continue(Exception):
+    pass
+
+
 class Interp:
     def __init__(self, ast, file_suffix, extern=None, max_depth=6):
         self.ast = ast
@@ -142,6 +151,8 @@ class Interp:
                 return bool(n["v"])
             if n["t"] == "float":
                 return ("f", float(n["v"]))
+            if n["t"] in ("str", "char"):
+                return n["v"]
             raise NotPure("literal " + n["t"])
         if k == "path":
             p = n["path"]
@@ -149,6 +160,9 @@ class Interp:
                 return env[p]
             if p in self.extern:
                 return self.extern[p]
+            hook = self.extern.get("path")
+            if hook is not None:
+                return hook(p)
             raise NotPure("free name " + p)
         if k == "unary":
             v = self.ev(n["e"], env, depth)
@@ -198,6 +212,21 @@ class Interp:
             return self.block(n, env, depth)
         if k == "return":
             raise _Return(self.ev(n["e"], env, depth) if n.get("e") is not None else None)
+        if k == "break":
+            raise _Break(self.ev(n["e"], env, depth) if n.get("e") is not None else None)
+        if k == "continue":
+            raise _Continue()
+        if k == "try":
+            v = self.ev(n["e"], env, depth)
+            if isinstance(v, tuple) and len(v) == 2 and v[0] == "err":
+                raise _Return(v)
+            if isinstance(v, tuple) and len(v) == 2 and v[0] == "some":
+                return v[1]
+            if v is None:
+                raise _Return(None)
+            return v
+        if k == "lit" and False:
+            pass
         if k == "tuple":
             return tuple(self.ev(e, env, depth) for e in n["elems"])
         if k == "field":
@@ -227,12 +256,20 @@ class Interp:
                     return min(args) if name == "min" else max(args)
                 if name in ("Some", "Ok", "Box::new"):
                     return ("some", args[0])
+                if name == "Err":
+                    return ("err", args[0])
                 if name in self.extern and callable(self.extern[name]):
                     return self.extern[name](*args)
                 if name in ("from",) and len(args) == 1:
                     return args[0]
-                target = self.ast.fn(self.file, name, required=False)
+                try:
+                    target = self.ast.fn(self.file, name, required=False)
+                except Exception:
+                    target = None
                 if target is None:
+                    hook = self.extern.get("call")
+                    if hook is not None:
+                        return hook(f["path"], args)
                     raise NotPure("call to unknown function " + up(f))
                 return self.call(target, args, depth + 1)
             raise NotPure("indirect call")
